@@ -743,7 +743,8 @@ class GCodeBuilder(GCodeCore):
 
         # Format the statement first, it rejects non-finite values
 
-        statement = self._get_statement(mode, kwargs)
+        comment = kwargs.pop("comment", None)
+        statement = self._get_statement(mode, kwargs, comment)
 
         # Track temperatures if provided
 
